@@ -5,6 +5,7 @@ import SciVerif.Tie.Pins
 /-! Tie A obligations for C04: the port and task-creation code has the shape the channel and
 task-creation models assume. -/
 namespace SciVerif.Tie
+-- PIN-NOT: Scipipe.Task_Execute Scipipe.FinalizePaths Scipipe.Task_writeAuditLogs
 -- functions the model relies on without an obligation of its own naming them (pinned by bin/mkpins):
 -- PIN-ALSO: Scipipe.InPort_Recv Scipipe.InParamPort_Recv Scipipe.InPort_From Scipipe.InParamPort_From Scipipe.OutPort_To Scipipe.OutParamPort_To Scipipe.InPort_AddRemotePort Scipipe.OutPort_AddRemotePort Scipipe.InParamPort_AddRemotePort Scipipe.OutParamPort_AddRemotePort Scipipe.InPort_removeRemotePort Scipipe.OutPort_removeRemotePort Scipipe.BaseProcess_CloseAllOutPorts Scipipe.BaseProcess_CloseOutParamPorts Scipipe.getBufsize Scipipe.NewOutPort Scipipe.NewOutParamPort Scipipe.InParamPort_FromStr
 open SciVerif.Generated
@@ -60,6 +61,7 @@ theorem generated_proc_sem_good_c04 : Proc.good procSem := by decide
 
 
 
+
 -- BEGIN PINS (written by bin/mkpins; do not edit by hand)
 /-- the Go functions this property's model and obligations were written against have exactly the
 pinned skeletons (SHA-256 prefix of the atom list) -/
@@ -71,7 +73,6 @@ theorem pinned_skeletons_c04 :
      ("Scipipe.BaseProcess_CloseOutPorts", "be86bddf379df111"),
      ("Scipipe.BaseProcess_receiveOnInParamPorts", "80f48a9a3ce80c41"),
      ("Scipipe.BaseProcess_receiveOnInPorts", "fc9972cf4f754181"),
-     ("Scipipe.FinalizePaths", "291fc0cefa37cea9"),
      ("Scipipe.InParamPort_AddRemotePort", "3305ddf163d24713"),
      ("Scipipe.InParamPort_CloseConnection", "0b1304b246603bb9"),
      ("Scipipe.InParamPort_From", "91dcfa2a5059be8c"),
@@ -99,8 +100,6 @@ theorem pinned_skeletons_c04 :
      ("Scipipe.OutPort_removeRemotePort", "7b8fd26a958e69e5"),
      ("Scipipe.Process_Run", "05880ea16e590fb1"),
      ("Scipipe.Process_createTasks", "8c856d9ef4492f5d"),
-     ("Scipipe.Task_Execute", "40fd1fec0c69deb2"),
-     ("Scipipe.Task_writeAuditLogs", "5ee6e36ed2566be6"),
      ("Scipipe.getBufsize", "65b7d390dc0d0c72"),
      ("Scipipe.taskQueue_NextTaskDone", "749f6263d8a0c13f")] = true := by decide
 -- END PINS
